@@ -801,6 +801,9 @@ func runFaultScenarios(out *vh.Out, scs [][]op) map[string]int {
 		for _, f := range j.r.fbuf {
 			out.Fail(f.Signature, f.What, f.Replay)
 		}
+		for _, n := range j.r.nbuf {
+			out.Note(n.Owners[0], n.Stream, n.Op, n.Why, n.Replay)
+		}
 		if j.r.c != nil {
 			cfgs[fmt.Sprintf("fault servers=%d shards=%d retries=%d", len(j.r.c.nodes), len(j.r.c.col.ShardIds), j.r.c.retries)]++
 			j.r.c.close()
